@@ -223,6 +223,29 @@ static void lengths_workload(Harness& H, bool thorough)
    H.checkpoint(true);
 }
 
+// Words that continue one another: every cut k of one long word for k around 8, 16, 32, 64, 128, 256 and 1024 (+-9), entered longest
+// first, shortest first and in random order (three different long words), then all again; a proper prefix of a known word is
+// another word, and so is a known word continued by anything (a NUL, a repeat of itself)
+static void continued_words_workload(Harness& H)
+{
+   std::uint64_t tag = 7000000;
+   for (int order = 0; order < 3; ++order) {
+      std::string longw = H.unique_bytes(1100, ++tag);
+      if (order == 1) for (auto& c : longw) c = char('a' + (unsigned char)c % 26);       // a printable family
+      std::vector<std::size_t> cuts;
+      for (std::size_t mid : { 8u, 16u, 32u, 64u, 128u, 256u, 1024u }) for (std::size_t k = mid > 9 ? mid - 9 : 1; k <= mid + 9; ++k) cuts.push_back(k);
+      cuts.push_back(1100);
+      if (order == 0) std::reverse(cuts.begin(), cuts.end());
+      if (order == 2) for (std::size_t i = cuts.size(); i > 1; --i) std::swap(cuts[i - 1], cuts[H.rng.below(i)]);
+      for (int pass = 0; pass < 2; ++pass) {
+         for (auto k : cuts) { H.intern(longw.substr(0, k), "continued-words"); ctx().count("words_that_continue_or_cut_short_a_known_word"); }
+         std::reverse(cuts.begin(), cuts.end());
+      }
+      for (std::size_t k : { 31u, 32u, 33u, 40u }) { std::string w = longw.substr(0, k); H.intern(w + std::string(1, '\0'), "continued-words"); H.intern(w + w, "continued-words"); H.intern(w, "continued-words"); }
+   }
+   H.checkpoint(true);
+}
+
 static void collisions_workload(Harness& H, bool thorough)
 {
    // equal-hash, equal-length words; verified against std::hash at run time
@@ -494,7 +517,7 @@ static void body(Ctx& C)
           "all earlier Strings are re-read (address, length, bytes) and storage intervals [header,end) are checked pairwise disjoint");
    C.assume("storage interval of a dynamic word = 8-byte length header immediately before characters() (pinned layout), used only for the overlap check");
    for (auto k : { "pool_rollovers", "oversize_own_pool", "oversize_fitted_current_pool", "boundary_requests_rolled_over", "boundary_requests_fitted",
-                   "equal_hash_chains_verified", "equal_hash_prefix_chains_verified", "words_given_an_equal_hash_neighbour", "words_given_an_equal_hash_and_length_neighbour", "re_interned", "rechecks", "interval_checks", "reserved_words_checked", "interned:reserved-near-miss", "first_pool_filled_exactly", "views_into_pool_storage", "sources_at_odd_alignment", "digest_twins_interned", "oversize_words_right_after_a_pool_was_used_up_exactly", "words_interned_during_static_initialisation" }) C.need(k);
+                   "equal_hash_chains_verified", "equal_hash_prefix_chains_verified", "words_given_an_equal_hash_neighbour", "words_given_an_equal_hash_and_length_neighbour", "re_interned", "rechecks", "interval_checks", "reserved_words_checked", "interned:reserved-near-miss", "first_pool_filled_exactly", "views_into_pool_storage", "sources_at_odd_alignment", "digest_twins_interned", "oversize_words_right_after_a_pool_was_used_up_exactly", "words_interned_during_static_initialisation", "words_that_continue_or_cut_short_a_known_word" }) C.need(k);
    {  // what the early probe saw
       const EarlyWords& E = early_words;
       C.count("words_interned_during_static_initialisation", E.ran ? (long long)std::size(reserved_words) + 6 : 0);
@@ -524,6 +547,7 @@ static void body(Ctx& C)
    Harness H(C.seed), other(C.seed + 1);
    lengths_workload(H, C.thorough);
    reserved_and_empty(H, other);
+   continued_words_workload(H);
    collisions_workload(H, C.thorough);
    own_storage_workload(H, C.thorough);
    digest_twins_workload(H);
